@@ -176,3 +176,18 @@ M("C01-R5-symlink-gate-open", "C01", [(S, "            false => !file_type.is_sy
 M("C01-R5-default-root", "C01", [("src/query.rs", 'path: String::from("."),', 'path: String::from("/"),')], ["default-root"])
 M("C01-V-min-gate-mirrored", "C01", [(S, "if min_depth == 0 || depth >= min_depth {", "if min_depth == 0 || min_depth <= depth {")], kind="variant")
 M("C01-V-max-gate-negated", "C01", [(S, "if max_depth == 0 || depth < max_depth {", "if max_depth == 0 || !(depth >= max_depth) {")], kind="variant")
+
+# ---------------------------------------------------------------- C09
+OJ, OH, OF, OM, OC = "src/output/json.rs", "src/output/html.rs", "src/output/flat.rs", "src/output/mod.rs", "src/output/csv.rs"
+M("C09-R1-grouped-no-separator", "C09", [(S, "                    if first {\n                        first = false;\n                    } else {\n                        let _ = self.results_writer.write_row_separator(&mut buf);\n                    }\n", "")], ["separator_list_search_results"])
+M("C09-R1-streamed-separator-always", "C09", [(S, "if !self.is_buffered() && self.found > 1 {", "if !self.is_buffered() && self.found > 0 {")], ["separator_check_file"])
+M("C09-R1-drain-no-first", "C09", [(S, "                if first {\n                    first = false;\n                } else if let Err(e) = self", "                if !first {\n                    first = false;\n                } else if let Err(e) = self")], ["separator_list_search_results_buffered"])
+M("C09-R2-html-no-amp", "C09", [(OH, "    text.replace('&', \"&amp;\")\n        .replace('<', \"&lt;\")", "    text.replace('<', \"&lt;\")")], ["escape_html"])
+M("C09-R2-html-amp-last", "C09", [(OH, "    text.replace('&', \"&amp;\")\n        .replace('<', \"&lt;\")\n        .replace('>', \"&gt;\")", "    text.replace('<', \"&lt;\")\n        .replace('>', \"&gt;\")\n        .replace('&', \"&amp;\")")], ["escape_html"])
+M("C09-R2-json-map-not-cleared", "C09", [(OJ, "        self.file_map.clear();\n", "")], ["escape_json"])
+M("C09-R3-json-footer", "C09", [(OJ, 'Some("]".to_owned())', 'Some("}".to_owned())')], ["framing_json"])
+M("C09-R3-html-footer", "C09", [(OH, '"</table></body></html>"', '"</table></html>"')], ["framing_html"])
+M("C09-R4-footer-conditional", "C09", [(S, "        self.results_writer.write_footer(&mut std::io::stdout())?;", "        if self.found > 0 {\n            self.results_writer.write_footer(&mut std::io::stdout())?;\n        }")], ["header-footer"])
+M("C09-R5-list-newline", "C09", [(OF, "pub const LIST_FORMATTER: FlatWriter = FlatWriter {\n    record_separator: '\\0',\n    line_separator: Some('\\0'),", "pub const LIST_FORMATTER: FlatWriter = FlatWriter {\n    record_separator: '\\0',\n    line_separator: Some('\\n'),")], ["flat_LIST"])
+M("C09-R5-is-last-off", "C09", [(OM, "pos == len - 1", "pos == len")], ["write_row"])
+M("C09-R5-csv-selects-json", "C09", [(OM, "OutputFormat::Csv => Box::<CsvFormatter>::default(),", "OutputFormat::Csv => Box::<JsonFormatter>::default(),")], ["select_formatter"])
